@@ -258,8 +258,49 @@ def apply(fb):
         return
     with open(TABLE) as fh:
         known = set(json.load(fh)["functions"])
+    fb._known_paths = {b["path"] for b in fb.bodies.values() if b["path"] in known}
     new = {k: b for k, b in fb.bodies.items() if b["kind"] in ("Fn", "AssocFn") and b["path"] not in known and not b.get("exp") and b.get("blocks")}
+    # a listed function that is gone under its path while an unlisted one has its name: it was MOVED (other module / into an impl),
+    # it is not a new helper - the rules find it through FactBase._moved and it keeps its own analysis
+    present = {b["path"] for b in fb.bodies.values()}
+    gone = {}
+    for p_ in known - present:
+        gone.setdefault((p_.split("::")[0], p_.split("::")[-1]), []).append(p_)
+    moved = {}
+    for k, b in list(new.items()):
+        olds = gone.get((b["crate"], b["path"].split("::")[-1]))
+        if olds:
+            del new[k]
+            if len(olds) == 1 and sum(1 for b2 in fb.bodies.values() if b2["crate"] == b["crate"] and b2["kind"] in ("Fn", "AssocFn") and b2["path"].split("::")[-1] == b["path"].split("::")[-1] and b2["path"] not in known) == 1:
+                moved[b["path"]] = olds[0]
+    if moved:
+        # present the moved function under the path the rules know (its own def key is unchanged): body, call sites, HIR paths
+        def ren(x):
+            if isinstance(x, list):
+                for v in x:
+                    ren(v)
+            elif isinstance(x, dict):
+                for kk in ("path", "rpath", "of"):
+                    if isinstance(x.get(kk), str) and x[kk] in moved:
+                        x[kk] = moved[x[kk]]
+                for v in x.values():
+                    if isinstance(v, (dict, list)):
+                        ren(v)
+        for b in fb.bodies.values():
+            if b["path"] in moved:
+                fb.by_path[b["path"]] = [x for x in fb.by_path[b["path"]] if x != b["key"]]
+                b["path"] = moved[b["path"]]
+                fb.by_path[b["path"]].append(b["key"])
+            ren(b.get("blocks"))
+        for h in fb.hir.values():
+            if h["path"] in moved:
+                h["path"] = moved[h["path"]]
+            ren(h.get("body"))
+        fb.relocated = {v: k for k, v in moved.items()}
+        fb.inlined.append({"moved_functions": fb.relocated})
     if not new:
+        fb._calls = {}
+        fb._edges = None
         return
     # no recursion among the new functions (a recursive helper is analysed on its own)
     def callees(b):
